@@ -352,7 +352,7 @@ func (e *exporter) exportMessage(msg *Message) {
 
 	dbcMsg.Name = clearSpaces(msg.name)
 	dbcMsg.Size = uint32(msg.sizeByte)
-	dbcMsg.Transmitter = msg.senderNodeInt.node.name
+	dbcMsg.Transmitter = clearSpaces(msg.senderNodeInt.node.name)
 
 	e.currDBCMsg = dbcMsg
 
@@ -504,7 +504,7 @@ func (e *exporter) getDBCValueDescription(enumValues []*SignalEnumValue) []*dbc.
 
 func (e *exporter) exportSignalEnum(enum *SignalEnum) {
 	e.dbcFile.ValueTables = append(e.dbcFile.ValueTables, &dbc.ValueTable{
-		Name:   enum.name,
+		Name:   clearSpaces(enum.name),
 		Values: e.getDBCValueDescription(enum.Values()),
 	})
 }
